@@ -25,6 +25,11 @@ CLAIMED = {
     'C05': dict(ref='5 (C05)', tech=TECH, note=NOTE + ' Callee summaries (restriction halves exactly the pattern directions; residual/smoothing do not touch cycling state) are assumed here and discharged under C04/C01.',
                 text='Proof over all paths of _current_sc_dir/_current_lr_dir, _max_level (loop invariant with the spec function H), parameter '
                      'set-up, and multigrid (recursion invariant, V/W/F child-call structure, one generic fine-grid cycle): unbounded in shape, level and limits.'),
+    'C12': dict(ref='5 (C12)', tech=TECH + '; provenance (taint) tags on array storages in the control executor',
+                note=NOTE + ' Numerical callees are summarised by how they propagate provenance; one source / one frequency; in-memory execution; process_map order is C11.',
+                text='Proof that every public operation of Simulation (compute, misfit, gradient, jvec, jtvec, get_efield, clean x3, model update + clean, to_dict) re-establishes the '
+                     'cache-coherence invariant from every abstract pre-state satisfying it (plain, partially computed, computed, misfit cached, gradient cached, results only), with an arbitrary '
+                     'history value in the shared solver options; forward tasks get tol_forward, adjoint/jvec tasks tol_gradient, all get the current model. Plus bounded operation sequences on a real simulation.'),
     'C13': dict(ref='5 (C13)', tech=TECH, note=NOTE + ' xarray behaviour (attribute-style access, copy(data=), sel, NaN-skipping sum) is an assumed dependency contract; sqrt/abs/conj are uninterpreted element-wise functions.',
                 text='Proof over all paths and all scalar/array/absent combinations: the standard-deviation getter returns the explicit array or sqrt(nf^2+(re|d|)^2) in a fresh array or None; '
                      'setters reject non-positive values and keep arrays in fresh storage; add_noise writes only data[add_to]; misfit, select and to_dict write none of the noise parameters; '
